@@ -236,6 +236,39 @@ def run(ctx):
             r5.check(bounded, "alloc@" + key, "allocation sized by %s is under a bound check" % sorted({r_.name.split("::")[-1] for r_ in readers}),
                      "allocation sized by a client-supplied %s without an upper bound: a few bytes on the wire make the pooler allocate (and fill) up to 2 GiB; a failed allocation aborts the whole process" % sorted({r_.name.split("::")[-1] for r_ in readers}), c.where())
     r5.note("%d client-sized allocation sites in %d functions reachable from client_entrypoint" % (n5, len(scope)))
+    # ---------------- R6 recursion over client-supplied SQL stays inside the worker's stack
+    r6 = ctx.rule("C11-R6", "recursive work on client-supplied SQL is bounded, so that it cannot overflow the stack of a tokio worker (a stack overflow is not a task-local panic: the process is aborted): "
+                  "the SQL parser runs with sqlparser's default recursion limit, and the text handed to it is bounded in length", floor=2)
+    psites = F.all_calls("re:^sqlparser::parser::Parser::(parse_sql|new|with_recursion_limit|try_with_sql|with_tokens|with_tokens_with_locations|parse_statements|parse_statement)$")
+    psites = [c for c in psites if "::test" not in c.body.name]
+    lim = [c for c in psites if c.name.endswith("with_recursion_limit")]
+    big = [c for c in lim if not isinstance(const_int(c.args[1]), int) or const_int(c.args[1]) > 50]
+    r6.check(bool(psites) and not big, "parser-recursion-limit", "SQL is parsed with sqlparser's default recursion limit (50) at %d site(s)" % len([c for c in psites if c.name.endswith(("parse_sql", "parse_statements"))]),
+             "the SQL parser's recursion limit is raised (%s): the limit of 50 is what keeps the recursive-descent parser inside the 2 MiB stack of a tokio worker; `SELECT ((((...1...))))` then overflows it and the whole pooler is aborted"
+             % [const_int(c.args[1]) for c in big], big[0].where() if big else "")
+    qp = ctx.body("pgcat::query_router::QueryRouter::parse", r6)
+    if qp:
+        qsw = switches(qp)
+        ps = [c for c in qp.calls("re:^sqlparser::parser::Parser::(parse_sql|parse_statements)$")]
+        # edges on which the message length was compared with some bound and found small enough
+        boundE = set()
+        for sw in qsw:
+            if not sw.is_bool():
+                continue
+            for o in sw.origins():
+                if o.kind == "bin" and o.what in ("Gt", "Ge", "Lt", "Le"):
+                    srcs = {oo.call.name.split("::")[-1] for side in ("a", "b") for oo in origins(qp, o.extra[side], taint=True) if oo.kind == "call"}
+                    if srcs & {"get_i32", "len", "get_u32"}:
+                        te, fe = sw.bool_edges()
+                        if o.neg:
+                            te, fe = fe, te
+                        boundE.add(fe if o.what in ("Gt", "Ge") else te)   # `len > max` false edge / `len < max` true edge (orientation: length on the left)
+        w = qp.uncrossed_path([0], [c.block for c in ps], edges=boundE) if ps else None
+        r6.check(bool(ps) and w is None, "parser-input-unbounded", "every path to the SQL parser crosses a length bound",
+                 "QueryRouter::parse hands the client's text to the parser without a length bound when query_parser_max_length is not configured (the default): a left-associative chain `SELECT 1+1+...+1` is parsed by a loop, "
+                 "past sqlparser's recursion limit, into a left-deep tree whose recursive traversal and drop overflow the worker stack - one 60 kB (debug) / 200 kB (release) Query aborts the pooler",
+                 ps[0].where() if ps else "", w and qp.describe_path(w))
+
     # ---------------- inventory (informational)
     inv = ctx.rule("C11-INV", "inventory of panic-capable operations on data read from the client in the protocol entry functions (a panic here only ends the sender's task)", armed=False)
     tot = 0
